@@ -122,7 +122,10 @@ def sig_case(item):
         if kind == "pss":
             return key.hashAndSign(bytearray(msg), "PSS", hh, salt)
         if kind == "ecdsa":
-            return key.hashAndSign(bytearray(msg), hAlg=hh)
+            # as the protocol code does (keyexchange.py): a digest longer
+            # than the curve is truncated by the caller of sign()
+            dg = bytearray(hashlib.new(hh, bytes(msg)).digest())
+            return key.sign(dg[:key.private_key.curve.baselen], hashAlg=hh)
         if kind == "eddsa":
             return key.hashAndSign(bytearray(msg))
         if kind == "dsa":
